@@ -10,14 +10,33 @@ from .core import ToolError, log
 # math  : function-level trace validation (real pure functions, production scale)
 # world : system-level trace validation (real contracts in cw-multi-test)
 PROPS = {
-    'C01': dict(mc=[('MC_Math', ['swap'])], math=['swap']),
-    'C04': dict(mc=[('MC_Math', ['withdraw'])], math=[]),
-    'C05': dict(mc=[('MC_Math', ['share', 'first'])], math=['share']),
-    'C06': dict(mc=[('MC_Math', ['swap'])], math=['swap']),
+    'C01': dict(mc=[('MC_Math', ['swap'])], math=['swap'], world=['random', 'withdraw']),
+    'C02': dict(mc=[], world=['matrix', 'random']),
+    'C03': dict(mc=[], world=['random', 'withdraw', 'matrix']),
+    'C04': dict(mc=[('MC_Math', ['withdraw'])], world=['random', 'withdraw']),
+    'C05': dict(mc=[('MC_Math', ['share', 'first'])], math=['share'], world=['random', 'matrix']),
+    'C06': dict(mc=[('MC_Math', ['swap'])], math=['swap'], world=['random']),
+    'C07': dict(mc=[], world=['random', 'matrix']),
     'C08': dict(mc=[], math=['arith'], level='exploration'),
-    'C10': dict(mc=[('MC_Math', ['belief', 'spread'])], math=['maxspread']),
-    'C12': dict(mc=[('MC_Math', ['reverse'])], math=['reverse']),
-    'C15': dict(mc=[('MC_Math', ['slip'])], math=['slip']),
+    'C09': dict(mc=[], world=['matrix', 'random']),
+    'C10': dict(mc=[('MC_Math', ['belief', 'spread'])], math=['maxspread'], world=['random']),
+    'C11': dict(mc=[], world=['random']),
+    'C12': dict(mc=[('MC_Math', ['reverse'])], math=['reverse'], world=['random']),
+    'C13': dict(mc=[], world=['random']),
+    'C14': dict(mc=[], world=['matrix', 'random']),
+    'C15': dict(mc=[('MC_Math', ['slip'])], math=['slip'], world=['random']),
+    'C16': dict(mc=[], world=['registry', 'matrix']),
+    'C17': dict(mc=[], world=['registry']),
+    'C19': dict(mc=[], world=['registry']),
+    'C20': dict(mc=[], world=['withdraw', 'random']),
+}
+
+# world driver sizes: (behaviours, steps) per tier
+WORLD_N = {
+    'random':   {'quick': (14, 80), 'thorough': (150, 120)},
+    'matrix':   {'quick': (3, 0),   'thorough': (30, 0)},
+    'registry': {'quick': (8, 40),  'thorough': (80, 40)},
+    'withdraw': {'quick': (16, 0),  'thorough': (160, 0)},
 }
 
 MATH_N = {'quick': 1600, 'thorough': 24000}
@@ -78,11 +97,26 @@ def classify(pid, reports, known_entries):
     return known, fresh, open_classes
 
 
-def write_replay(pid, seed, n, stage, events):
+def scenario_prefix(lines, i):
+    """The scenario (setup + raw operations) that leads to event i of a world trace."""
+    j = i
+    while j >= 0 and '"k":"reset"' not in lines[j]:
+        j -= 1
+    reset = json.loads(lines[j])
+    ops = [json.loads(lines[k])['raw'] for k in range(j + 1, i + 1)]
+    return {'tag': reset.get('tag', 'replay'), 'setup': reset['setup'], 'ops': ops}
+
+
+def write_replay(pid, seed, n, stage, r):
     os.makedirs(core.REPLAYS, exist_ok=True)
     path = os.path.join(core.REPLAYS, '%s-%d-%d.json' % (pid, seed, n))
+    body = {'property': pid, 'stage': stage, 'clause': r['clause']}
+    if stage == 'math':
+        body['events'] = [r['event']]
+    else:
+        body['scenario'] = r['scenario']
     with open(path, 'w') as f:
-        json.dump({'property': pid, 'stage': stage, 'events': events}, f)
+        json.dump(body, f)
     return path
 
 
@@ -91,7 +125,8 @@ def check(pid, tier, seed):
     spec = PROPS[pid]
     workdir = core.fresh_dir(os.path.join(core.WORK, '%s-%s-%d' % (pid, tier, os.getpid())))
     known_entries = core.load_known()
-    ev = {'property_id': pid, 'tier': tier, 'seed': seed, 'level': spec.get('level', 'model_checking')}
+    ev = {'property_id': pid, 'tier': tier, 'seed': seed,
+          'level': spec.get('level', 'model_checking' if spec.get('mc') else 'exploration')}
     cov = {}
     try:
         core.build_harness()
@@ -116,6 +151,25 @@ def check(pid, tier, seed):
                 e = json.loads(res['lines'][i])
                 samples.append({'stage': 'math', 'call': e.get('k'), 'input': e.get('h'), 'observed': e.get('r', e.get('r1'))})
             stages.append({'stage': 'math', 'kinds': spec['math'], 'events': res['n'], 'applicable': len(idx)})
+        # ---- system-level traces ---------------------------------------------------------------
+        for driver in spec.get('world', []):
+            nb, steps = WORLD_N[driver][tier]
+            tp = os.path.join(workdir, 'world_%s.ndjson' % driver)
+            core.harness(['world', '--driver', driver, '--seed', str(seed), '--behaviours', str(nb), '--steps', str(steps),
+                          '--out', tp])
+            res = core.validate_trace('Trace_World', tp, os.path.join(workdir, 'tv_' + driver), reset_kind='reset', per_shard=350)
+            for r in res['reports']:
+                r['stage'] = 'world'
+                r['scenario'] = scenario_prefix(res['lines'], r['i'])
+            reports += res['reports']
+            n_events += res['n']
+            idx = res['apps'].get(pid, [])
+            apps_idx += [('world-' + driver, i, core.event_key(res['lines'][i])) for i in idx]
+            for i in idx[:2]:
+                e = json.loads(res['lines'][i])
+                samples.append({'stage': 'world-' + driver, 'step': e.get('h', '')[:400],
+                                'outcome': (e.get('res') or e.get('ans') or {}).get('why', '') or 'ok'})
+            stages.append({'stage': 'world-' + driver, 'behaviours': nb, 'events': res['n'], 'applicable': len(idx)})
         # ---- verdict ---------------------------------------------------------------------------
         known, fresh, open_classes = classify(pid, reports, known_entries)
         distinct = len(set(k for _, _, k in apps_idx))
@@ -145,7 +199,7 @@ def check(pid, tier, seed):
             k = open_classes[cls]
             print('KNOWN-FINDING: property=%s %s [%s] hits=%d e.g. %s' % (pid, k['what'], cls, len(rs), rs[0]['h'][:160]))
         for n, r in enumerate(fresh[:20]):
-            path = write_replay(pid, seed, n, r['stage'], [r['event']])
+            path = write_replay(pid, seed, n, r['stage'], r)
             print('VIOLATION property=%s replay=%s' % (pid, path))
             print('  clause=%s %s' % (r['clause'], r['h'][:300]))
             rc = 1
@@ -186,6 +240,13 @@ def replay(path):
         tp = os.path.join(workdir, 'out.ndjson')
         core.harness(['replay-math', '--in', src, '--out', tp])
         res = core.validate_trace('Trace_Math', tp, os.path.join(workdir, 'tv'))
+    elif rp['stage'] == 'world':
+        src = os.path.join(workdir, 'scenario.json')
+        with open(src, 'w') as f:
+            f.write(json.dumps(rp['scenario']) + '\n')
+        tp = os.path.join(workdir, 'out.ndjson')
+        core.harness(['scenario', '--in', src, '--out', tp])
+        res = core.validate_trace('Trace_World', tp, os.path.join(workdir, 'tv'), reset_kind='reset')
     else:
         raise ToolError('unknown replay stage ' + str(rp['stage']))
     known, fresh, open_classes = classify(pid, res['reports'], core.load_known())
